@@ -27,6 +27,10 @@ ENCODINGS = {
     "obj_none": (["a", "b", "c"], None, object),
     "str_zz": (["a", "b", "c"], "zz", "U2"),
     "str_empty": (["a", "b", "c"], "", "U2"),
+    # numeric class labels in an object array with the None sentinel and
+    # class labels of different lengths (used by the classifier part of C09)
+    "objnum_none": ([0, 1, 2], None, object),
+    "str_long": (["a", "bb", "ccc"], "zzzz", "U4"),
 }
 REG_SENTINELS = {"float_nan": float("nan"), "num_m999": -999.0}
 
